@@ -201,7 +201,9 @@ func (l *logger) Error(msg string, ctx ...interface{}) {
 
 func (l *logger) Crit(msg string, ctx ...interface{}) {
 	l.write(msg, LvlCrit, ctx)
-	verifhook.Crit(msg)
+	if verifhook.Crit(msg) {
+		return
+	}
 	time.Sleep(100 * time.Millisecond) // no so fast there
 	os.Exit(1)
 }
